@@ -191,7 +191,7 @@ def outcome(task):
             return ('stop', [])
         if isinstance(res, tuple) and len(res) == 2:
             return ('collect', dec(res[0]), dec(res[1]), '-')
-        if isinstance(res, asyncssh.SSHCompletedProcess):
+        if isinstance(res, (asyncssh.SSHCompletedProcess, _WaitRes)):
             x = 'none'
             if res.exit_signal is not None:
                 x = 'signal'
@@ -304,7 +304,7 @@ class Replay:
     """Replay of one case."""
 
     def __init__(self, h, case, text=False, api='process', remax=RE_MAX,
-                 target=None, seqtype='tuple'):
+                 target=None, seqtype='tuple', waitop='wait'):
         self.h = h
         self.loop = h.loop
         self.W = case[0]
@@ -316,6 +316,7 @@ class Replay:
         self.remax = remax
         self.target_kind = target
         self.seqtype = list if seqtype == 'list' else tuple
+        self.waitop = waitop
         self.role = 'server' if any(
             l[0] == 'emit' and l[2] == 'in' or l[0] == 'call' and l[1] == 'in'
             for l in self.hist) else 'client'
@@ -455,7 +456,26 @@ class Replay:
     def start_call(self, dt, kind, n, sep):
         sep = norm_sep(sep)
         if kind == 'wait':
-            coro = self.proc.wait()
+            op = self.waitop
+            if op == 'aexit' and not (self.close_sent and not self.pending):
+                op = 'wait'     # "async with" closes the channel itself
+            proc = self.proc
+
+            async def wait():
+                if op == 'communicate':
+                    o, e = await proc.communicate()
+                elif op == 'aexit':
+                    await proc.__aexit__(None, None, None)
+                    o, e = proc.collect_output()
+                else:
+                    r = await proc.wait()
+                    o, e = r.stdout, r.stderr
+                snap = {d: [(rec['kind'],) + self.target_state(rec)
+                            for rec in recs]
+                        for d, recs in self.targets.items()}
+                return _WaitRes(o, e, proc.exit_status, proc.exit_signal,
+                                snap)
+            coro = wait()
         elif kind == 'collect':
             async def collect():
                 return self.proc.collect_output()
@@ -507,6 +527,8 @@ class Replay:
         fin = []
         for dt, spec, t in self.completed:
             out = outcome(t)
+            if out[0] == 'wait' and isinstance(t.result(), _WaitRes):
+                self.log.append(('waitsnap', t.result().snap))
             self.log.append(('done', dt, spec, out))
             if self.tasks.get(dt, (None,))[0] is t:
                 del self.tasks[dt]
@@ -573,6 +595,12 @@ class Replay:
         elif kind == 'stream':
             rec['sr'] = _MemWriterTransport(self.loop)
             target = rec['sr'].writer
+        elif kind == 'hstream':
+            rec['sr'] = rec['slow'] = _MemWriterTransport(self.loop, hold=True)
+            target = rec['sr'].writer
+        elif kind == 'afile':
+            rec['af'] = rec['slow'] = _AsyncFile(self.loop)
+            target = rec['af']
         else:
             raise ValueError(kind)
         self.targets.setdefault(dt, []).append(rec)
@@ -606,8 +634,10 @@ class Replay:
             return None, None
         if kind == 'process':
             return dec(b''.join(rec['sink'].got)), rec['sink'].got_eof
-        if kind == 'stream':
+        if kind in ('stream', 'hstream'):
             return dec(rec['sr'].data), rec['sr'].eof
+        if kind == 'afile':
+            return dec(rec['af'].data), rec['af'].closed == 1
         return None, None
 
     # -- whole case ----------------------------------------------------
@@ -627,6 +657,13 @@ class Replay:
                 self.start_call(lab[1], lab[2], lab[3], lab[4])
                 self.compare(step, lab, self.run(), lab[5],
                              lab[6] if len(lab) > 6 else None)
+            elif k == 'tstep':
+                rec = self.targets[lab[1]][-1]
+                if not rec['slow'].release():
+                    self.desync = (f'target of {lab[1]} has no write in '
+                                   f'flight where the specification has one')
+                self.compare(step, lab, self.run(), lab[2],
+                             lab[3] if len(lab) > 3 else None)
             elif k == 'redirect':
                 self.redirect(lab[1])
                 self.compare(step, lab, self.run(), lab[2],
@@ -654,6 +691,7 @@ class Replay:
                 self.exit_sent is not None and not self.close_sent:
             self.emit('close', self.dts[0], [])
             self.run()
+        self.release_all()
         for _ in range(2):
             for dt in self.dts:
                 if dt in self.targets or dt not in self.readers:
@@ -703,30 +741,100 @@ class Replay:
                     f'targets of {dt}: observed {obs}, predicted data '
                     f'{data} replaced at {gens}')
 
+    def release_all(self):
+        """closing phase: slow targets accept everything that is queued"""
+        for _ in range(64):
+            moved = False
+            for recs in self.targets.values():
+                for rec in recs:
+                    if 'slow' in rec and rec['slow'].release():
+                        moved = True
+            if not moved:
+                break
+            self.run()
+
     def log_targets(self):
+        self.release_all()
         for dt in self.targets:
             self.log.append(('target', dt,
                              [(rec['kind'],) + self.target_state(rec)
                               for rec in self.targets[dt]]))
 
 
-class _MemWriterTransport(asyncio.Transport):
-    """asyncio.StreamWriter over an in-memory transport (redirect target)."""
+class _WaitRes:
+    """what wait()/communicate()/__aexit__ reported, and the state of the
+    redirect targets at the very moment it returned"""
+
+    def __init__(self, stdout, stderr, status, signal, snap):
+        self.stdout, self.stderr = stdout, stderr
+        self.exit_status, self.exit_signal = status, signal
+        self.snap = snap
+
+
+class _AsyncFile:
+    """aiofiles-like target whose writes complete when the driver says so"""
 
     def __init__(self, loop):
+        self.loop = loop
+        self.data = b''
+        self.closed = 0
+        self.pending = []
+        self.after_close = False
+
+    async def write(self, data):
+        fut = self.loop.create_future()
+        self.pending.append((fut, bytes(data)))
+        await fut
+
+    async def close(self):
+        self.closed += 1
+
+    def release(self):
+        if not self.pending:
+            return False
+        fut, data = self.pending.pop(0)
+        if self.closed:
+            self.after_close = True
+        self.data += data
+        if not fut.done():
+            fut.set_result(None)
+        return True
+
+
+class _MemWriterTransport(asyncio.Transport):
+    """asyncio.StreamWriter over an in-memory transport (redirect target).
+    With hold=True every write stays in flight (writing paused, drain()
+    blocks) until the driver releases it."""
+
+    def __init__(self, loop, hold=False):
         super().__init__()
+        self.hold = hold
+        self.inflight = []
         self.data = b''
         self.eof = False
         self.after_eof = False
         self._closing = False
         proto = asyncio.StreamReaderProtocol(asyncio.StreamReader(loop=loop),
                                              loop=loop)
+        self.proto = proto
         self.writer = asyncio.StreamWriter(self, proto, None, loop)
 
     def write(self, data):
         if self.eof:
             self.after_eof = True
-        self.data += bytes(data)
+        if self.hold:
+            self.inflight.append(bytes(data))
+            self.proto.pause_writing()
+        else:
+            self.data += bytes(data)
+
+    def release(self):
+        if not self.inflight:
+            return False
+        self.data += self.inflight.pop(0)
+        if not self.inflight:
+            self.proto.resume_writing()
+        return True
 
     def can_write_eof(self):
         return True
@@ -832,6 +940,23 @@ def judge(rep):
             continue
         if ev[0] == 'end':
             end = ev
+            continue
+        if ev[0] == 'waitsnap':
+            # ExitAfterOutput: at the moment wait()/communicate()/"async
+            # with" returns every redirect target holds all of its stream
+            # and has been given EOF / closed
+            for d, gens in ev[1].items():
+                if any(g[1] is None for g in gens):
+                    continue
+                got = [u for g in gens for u in g[1]]
+                want = sent_data[d][redirected.get(d, 0):arrived_n[d]]
+                kinds = '+'.join(g[0] for g in gens)
+                if got != want or gens[-1][2] is False:
+                    viol.append(('exit-after-output', ('wait', 0, NO_SEP),
+                                 f'wait()/communicate() returned while the '
+                                 f'{kinds} target of {d} holds {got} of '
+                                 f'{want}, EOF/close given: {gens[-1][2]}',
+                                 context(d)))
             continue
         if ev[0] == 'start':
             d0 = ev[1]
@@ -1260,7 +1385,47 @@ def exit_scenarios(tier):
                         out.append(dict(window=w, writes=writes, how=how,
                                         status=(so + se) % 7, mode=mode,
                                         so=so, se=se))
+                if order == 'oe' and so + se and w in (2, 64, None):
+                    # run() with stdout / stderr redirected to targets that
+                    # are written by a background task, slower than the
+                    # channel (ExitAfterOutput)
+                    for tk in ('afile', 'stream', 'afile+stream'):
+                        out.append(dict(window=w, writes=writes, how='status',
+                                        status=(so + se) % 7,
+                                        mode='run_' + tk, so=so, se=se))
     return out
+
+
+class _PacedFile(_AsyncFile):
+    """async file whose writes take a few loop iterations each"""
+
+    async def write(self, data):
+        for _ in range(3):
+            await asyncio.sleep(0)
+        if self.closed:
+            self.after_close = True
+        self.data += bytes(data)
+
+
+class _PacedTransport(_MemWriterTransport):
+    """StreamWriter target that pauses writing after every write for a few
+    loop iterations (drain() has to wait)"""
+
+    def write(self, data):
+        if self.eof:
+            self.after_eof = True
+        self.data += bytes(data)
+        self.proto.pause_writing()
+        self._n = getattr(self, '_n', 0) + 1
+        n = self._n
+        loop = self.proto._loop
+
+        def later(k=3):
+            if k:
+                loop.call_soon(later, k - 1)
+            elif n == self._n:
+                self.proto.resume_writing()
+        loop.call_soon(later)
 
 
 def replay_exit(h, sc):
@@ -1272,7 +1437,24 @@ def replay_exit(h, sc):
     kw = {} if sc['window'] is None else {'window': sc['window']}
     pre = {'out': b'', 'err': b''}
 
+    slow = {}
+    if sc['mode'].startswith('run_'):
+        kinds = sc['mode'][4:].split('+')
+        for dt, kind in zip(('stdout', 'stderr') if len(kinds) > 1
+                            else ('stdout',), kinds):
+            slow[dt] = _PacedFile(loop) if kind == 'afile' \
+                else _PacedTransport(loop)
+    snap = {}
+
     async def go():
+        if slow:
+            r = await conn.run(cmd, encoding=None, **kw, **{
+                dt: (t if isinstance(t, _PacedFile) else t.writer)
+                for dt, t in slow.items()})
+            for dt, t in slow.items():
+                snap[dt] = (bytes(t.data), t.closed if isinstance(
+                    t, _PacedFile) else t.eof)
+            return r
         if sc['mode'] == 'run':
             return await conn.run(cmd, encoding=None, **kw)
         proc = await conn.create_process(cmd, encoding=None, **kw)
@@ -1295,8 +1477,19 @@ def replay_exit(h, sc):
                  'run()/wait() never returned although the server exited')]
     loop.run_until_idle()
     reported = res.exit_status is not None or res.exit_signal is not None
-    so = pre['out'] + res.stdout
-    se = pre['err'] + res.stderr
+    for dt, (data, done) in snap.items():
+        want = (b'o' * sc['so']) if dt == 'stdout' else (b'e' * sc['se'])
+        if data != want or not done:
+            viol.append(('exit-after-output', sc['mode'],
+                         f'run() returned exit status {res.exit_status} '
+                         f'while the {dt} target held {len(data)}/'
+                         f'{len(want)} bytes, EOF/close given: {bool(done)}'))
+    so = pre['out'] + (res.stdout or b'')
+    se = pre['err'] + (res.stderr or b'')
+    if 'stdout' in slow:
+        so = b'o' * sc['so']
+    if 'stderr' in slow:
+        se = b'e' * sc['se']
     if reported and (so != b'o' * sc['so'] or se != b'e' * sc['se']):
         viol.append(('exit-implies-all-output', sc['mode'],
                      f'exit status {res.exit_status} signal '
